@@ -119,7 +119,6 @@ Definition ok16 (c : case16) : bool :=
 Definition region16 (c : case16) : N :=
   match snd (start_run (k_params c) (k_times c) (k_now c) (k_store c)) with
   | WDelete => 2                                             (* F9a: new tail above store head + 1 *)
-  | WChunk => 7                                              (* F9f: last re-fetched chunk is the head itself *)
   | _ => 0
   end.
 
@@ -129,7 +128,7 @@ Definition chk16 (c : case16) : bool * bool * N :=
   (agree, ok, if ok then 0 else if agree then region16 c else 0).
 
 
-(** ** The oracle and the model: outside the two known-finding regions the model's
+(** ** The oracle and the model: outside the known-finding region the model's
     own observation satisfies the whole property oracle (so, for a store that was
     one gap-free chain before, [agree] and class 0 imply [ok]) *)
 Lemma valid_spec_eq p : valid_spec p = params_valid p.
@@ -258,6 +257,5 @@ Proof.
       apply store_chain_ok_wf; auto. intros E. split; [|rewrite Ho; discriminate].
       destruct (N.eq_dec (s_tail st) 0); [assumption|]. specialize (Sn ltac:(assumption)). contradiction.
     + destruct (WA Hh Hf) as (A & _). destruct A as [A|[A|[A|[A|A]]]]; discriminate.
-  - discriminate.
   - discriminate.
 Qed.
